@@ -13,8 +13,8 @@ T = [
   "sim/diff_expr.py continues with the implementation-side checks (compiled vs interpreter, documented meaning) after an emitter mismatch", "VIOLATION with the expression as replay"),
  ("C04-frozen-free-same-cell-flags", "C04", "frozen species registered first, cross-species pair force, frozen and free partner in the same cell", "MISSED at the first quick budget (48 scenarios)",
   "quick budget 144 scenarios; acts-on-flag oracle on linked-cell runs added to C04 and C10", "VIOLATION with a concrete scenario (C04, C10, C01)"),
- ("C05-scalar-unprotect-wraparound", "C05", "IntegratorScalarLambda with lambda != 1/2, at least 2 steps", "caught: persistence flags of the force accumulators differ from the model after the first step (correspondence)", "-",
-  "VIOLATION no-failing-input-found (IntegratorScalarLambda is not instantiated by the scenario generator; the broken protect/unprotect is visible on plain IntegratorScalar only through the flags)"),
+ ("C05-scalar-unprotect-wraparound", "C05", "IntegratorScalarLambda with lambda != 1/2, at least 2 steps", "caught without a failing input: persistence flags of the force accumulators differ from the model after the first step (correspondence)",
+  "implementation-side oracle for IntegratorScalarLambda (constant rate, all lambdas) in vlib/c05.py", "VIOLATION with a concrete scenario"),
  ("C06-pc-stage-not-reset", "C06", "see README.md", "caught (previous round)", "-", "VIOLATION with a concrete scenario"),
  ("C07-allpairs-second-slot-first-colour", "C07", "allPairs=\"yes\", three species, different tag layouts of the second and third species", "MISSED (no allPairs scenarios)",
   "allPairs groups in sim/corr_dyn.py (generator, model driver `psumall`, grouped oracle)", "VIOLATION with a concrete scenario"),
@@ -25,8 +25,8 @@ T = [
  ("C12-reflector-rng-seed-swapped", "C12", "stochastic reflector, real walls, a wall hit, different pids", "caught (entropy-site table: guard polarity; two-process runs differ)", "-", "VIOLATION with a concrete scenario"),
  ("C13-maxcutoff-from-last-colour-pair", "C13", "two colour pairs with different cutoffs, the smaller registered last, pairs with a cell in between", "MISSED by C13 (sparse scenarios), caught by C01",
   "dense multi-cutoff family and more shift variants in sim/corr_relabel.py", "VIOLATION with a concrete scenario (C13 and C01)"),
- ("C14-vector-tensor-copy-case", "C14", "VECTOR_TENSOR attribute in a record that is copied or assigned", "caught: the regenerated container table makes C14_gen_tables / heap lemmas fail", "-",
-  "VIOLATION no-failing-input-found (the model driver cannot be rebuilt when a lemma about the table fails, so no correspondence run)"),
+ ("C14-vector-tensor-copy-case", "C14", "VECTOR_TENSOR attribute in a record that is copied or assigned", "caught without a failing input: the regenerated container table makes C14_gen_tables / heap lemmas fail and the run stopped there",
+  "the model driver is built on its own before the proofs; the copy/assign/clear oracle families cover all four container types", "VIOLATION with a concrete op sequence"),
  ("C15-free-slot-back", "C15", "see README.md", "caught (previous round)", "-", "VIOLATION with an op sequence"),
  ("C16-lucy-weight-prefactor-exponent", "C16", "Lucy kernel, cutoff != 1, gradient weight used", "caught: regenerated definition breaks the HasDerivAt proof; sampled validation gives the input", "-", "VIOLATION with a concrete evaluation"),
  ("C17-atoi-19char-branch", "C17", "INT attribute, malformed value of exactly 19 characters", "MISSED", "19-character malformed INT mutants; translator t_validate + theorem C17_conversion_sites_strict (every conversion site strict)", "VIOLATION with a concrete input; the proof obligation breaks as well"),
